@@ -87,6 +87,15 @@ def run(ctx):
                     offs = [o for i, o in enumerate(offs) if (i + ctx.seed) % 2 == 0 or abs(o) <= 1]
                 for o in offs:
                     bcmds.append("overlap f=bashHash l=%d len=%d doff=%d\n" % (l, ln, o))
+        # bashHashStepG: the hash buffer inside / straddling the state (every offset sharing an octet with it)
+        rc, kout, _ = vlib.run_harness(bdrv, ["overlap"], stdin=b"overlap f=bashHashStepG q=1\n", timeout=60)
+        bkeep = json.loads([l for l in kout.splitlines() if l.strip().endswith("}")][0])["keep"]
+        for l, hl in ((128, 32), (256, 64), (192, 5)):
+            offs = list(range(-(hl - 1), bkeep))
+            if ctx.quick:
+                offs = [o for o in offs if (o + ctx.seed) % 4 == 0 or abs(o) <= 2 or o >= bkeep - 3 or abs(o - (bkeep - hl)) <= 2 or o <= -(hl - 3)]
+            for o in offs:
+                bcmds.append("overlap f=bashHashStepG l=%d len=%d hlen=%d off=%d\n" % (l, (0, 40, 150)[o % 3], hl, o))
         bout = ctx.path("bash_overlap.ndjson")
         rc, _, err = vlib.run_harness(bdrv, ["overlap"], stdin="".join(bcmds).encode(), out_path=bout, env={"VERIF_SEED": ctx.seed}, timeout=600)
         brows = [json.loads(l) for l in open(bout) if l.strip().endswith("}")]
@@ -100,7 +109,7 @@ def run(ctx):
         ev.cov["evaluations"] += nb
         ev.cov["traces_validated_against_impl"] += nb
         ev.cov["distinct_nontrivial"] += len(brows)
-        ev.cov["functions"].append("bashHash")
+        ev.cov["functions"] += ["bashHash", "state:bashHashStepG"]
     except (FileNotFoundError, vlib.BuildError) as e:
         ev.cov["bash_overlap"] = "not available: %s" % str(e)[:100]
     # ---- buffers that may overlap the state object (key of *Start, tag of StepG / StepG2): second rule group of Overlap.tla
